@@ -5,5 +5,5 @@ CONSTANTS
   MaxOpts = 6
   FreeLen = 3
   ConfStdC = TRUE
-INVARIANTS TypeOK LastWins NoNegative DefaultsInScope
+INVARIANTS TypeOK LastWins NoNegative DefaultsInScope SplitDecision
 CHECK_DEADLOCK FALSE
